@@ -567,6 +567,21 @@ impl Harness {
                 }
                 json!({"ok": true})
             }
+            "StakesAhead" => {
+                // the node already answers with the stake distribution of the NEXT epoch although the epoch has not turned for
+                // the signer yet (a read racing the boundary). Only once the signer holds the stakes of this epoch's recording
+                // epoch -- from then on they are frozen; before, the first transition of the epoch legitimately stores what
+                // the node says. The next EpochUp sets the observer right again.
+                let epoch = self.w.ticker.get_current_epoch().await.unwrap();
+                let held = match self.signer.as_ref() {
+                    Some(p) => p.stake_store.get_stakes(epoch + RECORDING_OFFSET).await.ok().flatten().is_some(),
+                    None => false,
+                };
+                if held {
+                    self.w.chain.set_signers(stake_distribution(&self.w.fixture, *epoch + 1)).await;
+                }
+                json!({"ok": held})
+            }
             "Restart" => {
                 // everything the signer owns is dropped (sqlite connections closed) and rebuilt from the same files
                 self.signer = None;
@@ -767,6 +782,13 @@ fn random_schedule(r: &mut ChaCha20Rng, len: usize) -> Vec<Value> {
                 json!({"a":"Others","who": who})
             }
             20 | 21 => json!({"a":"Restart"}),
+            22 if since_epoch >= 3 => {
+                // a stake-distribution read racing the epoch boundary, then the registration transition runs again
+                out.push(json!({"a":"StakesAhead"}));
+                out.push(json!({"a":"Restart"}));
+                out.push(json!({"a":"Tick","fault":"none"}));
+                json!({"a":"Tick","fault":"none"})
+            }
             _ => {
                 if since_epoch < 5 {
                     json!({"a":"Tick","fault":"none"})
